@@ -7,7 +7,11 @@ Decides (from the syntax trees of hailtop/utils/utils.py, hailtop/httpx.py and t
   R2  per failure: `tries` incremented exactly once; on every retried path the value slept on is, by an interval + unit analysis over all
       definitions reaching the sleep, exactly delay_ms_for_try(tries)/1000 computed after the increment - never above the maximum, never
       mixing ms with s, never a value read off the exception unless clamped inside the documented band
-  R3  delay_ms_for_try: interval evaluation for every try count -> jitter band [C//2, C] capped at max
+      A call that binds an OPTIONAL extra parameter of delay_ms_for_try (a floor, an additive extra: `min_delay_ms=<Retry-After>`) is decided by
+      evaluating the body of delay_ms_for_try in the interval domain for every try count with the abstract value the call passes (unbounded for a
+      value read off the exception) and comparing with the result at the defaults: a floor applied outside the cap -> unbounded sleep; inside the
+      cap -> below the maximum but outside the band of the early tries
+  R3  delay_ms_for_try: interval evaluation for every try count -> jitter band [C//2, C] capped at max (optional extra parameters at their defaults)
   R4  classifiers follow __cause__ (and nothing else: not __context__) and end in `return False`
   R5  the public wrappers delegate to the analysed loop
   R6  producer/consumer agreement: every attribute a classifier reads off a repository-defined exception class (body, status, error_codes)
@@ -326,11 +330,26 @@ def _check_delay(ctx: Ctx, m: pf.Module):
         v = m.global_assign(name)
         ctx.need(isinstance(v, ast.Constant) and isinstance(v.value, int), f'{name} is not an integer literal')
         consts[name] = v.value
-    # parameter defaults
+    # parameters: (tries, base_delay_ms, max_delay_ms) and then any number of OPTIONAL extras (a floor, an additive extra, ...): the function is decided
+    # at the defaults here (that is what the documented band speaks about); a call site that binds an extra is decided there (R2), by
+    # evaluating this body with the abstract value it passes
+    ctx.need(not fn.args.vararg and not fn.args.kwarg and not fn.args.posonlyargs, 'delay_ms_for_try takes *args / **kwargs / positional-only parameters')
     args = [a.arg for a in fn.args.args]
-    ctx.need(args == ['tries', 'base_delay_ms', 'max_delay_ms'], f'delay_ms_for_try parameters changed: {args}')
-    defaults = [pf.nsrc(d) for d in fn.args.defaults]
+    ctx.need(args[:3] == ['tries', 'base_delay_ms', 'max_delay_ms'], f'delay_ms_for_try parameters changed: {args}')
+    pos_defaults = dict(zip(args[len(args) - len(fn.args.defaults):], fn.args.defaults))
+    kw_defaults = {a.arg: d for a, d in zip(fn.args.kwonlyargs, fn.args.kw_defaults)}
+    defaults = [pf.nsrc(pos_defaults[p]) if p in pos_defaults else None for p in args[1:3]]
     ctx.need(defaults == ['DEFAULT_BASE_DELAY_MS', 'DEFAULT_MAX_DELAY_MS'], f'delay_ms_for_try defaults changed: {defaults}')
+    extras: Dict[str, object] = {}
+    for pname, d in list(pos_defaults.items()) + list(kw_defaults.items()):
+        if pname in args[:3]:
+            continue
+        if d is not None and isinstance(d, ast.Constant) and d.value is None:
+            extras[pname] = cf.NONE
+        else:
+            ctx.need(d is not None and _int_const(m, d) is not None, f'delay_ms_for_try: parameter `{pname}` has no integer / None default (every caller would have to pass it: not analysed)')
+            extras[pname] = _int_const(m, d)
+    ctx.need(set(extras) == set(args[3:]) | set(kw_defaults), f'delay_ms_for_try: a parameter after max_delay_ms has no default ({args})')
     base, mx, K = consts['DEFAULT_BASE_DELAY_MS'], consts['DEFAULT_MAX_DELAY_MS'], consts['LOG_2_MAX_MULTIPLIER']
     ctx.need(base >= 1 and mx >= 1 and 0 <= K <= 62, 'delay constants out of the analysed range')
     # tries may only be used through a clamp min(tries, .., <const>, ..) so that finitely many cases are exhaustive
@@ -357,10 +376,10 @@ def _check_delay(ctx: Ctx, m: pf.Module):
     samples = []
     over_max = []
     top = None
+    model = cf.DelayModel(fn, consts, dict({'base_delay_ms': base, 'max_delay_ms': mx}, **extras), hi_try, exhaustive=exhaustive)
     for t in range(1, hi_try + 1):
-        env = {'tries': absdom.Interval(t, t), 'base_delay_ms': absdom.Interval(base, base), 'max_delay_ms': absdom.Interval(mx, mx)}
-        env.update({k: absdom.Interval(v, v) for k, v in consts.items()})
-        got = cf.eval_straightline_int(fn, env)
+        got, exact = model.run(t, {})
+        ctx.need(exact, f'delay_ms_for_try: a branch that is not decided by the default parameter values (tries={t}): the interval result is only an over-approximation')
         C = base * (2 ** min(t, 62))
         want = absdom.Interval(min(C // 2, mx), min(C, mx))
         if t <= 4 or t == hi_try:
@@ -391,6 +410,21 @@ def _check_delay(ctx: Ctx, m: pf.Module):
     # increase them).  Capping an ingredient (the exponent, the ceiling) "at the maximum" and dropping the final clamp is the mistake.
     cons2 = f'{F}::delay_ms_for_try::never longer than max_delay_ms'
     CAP = 'max_delay_ms'
+    fn0 = fn
+    if extras:
+        # the optional extras at their defaults (what every call that does not bind them gets)
+        import copy
+
+        class _Def(ast.NodeTransformer):
+            def visit_Name(self, node: ast.Name):  # noqa: N802
+                if isinstance(node.ctx, ast.Load) and node.id in extras:
+                    return ast.copy_location(ast.Constant(value=None if extras[node.id] is cf.NONE else extras[node.id]), node)
+                return node
+        ctx.need(not any(isinstance(n, ast.Name) and isinstance(n.ctx, ast.Store) and n.id in extras for n in ast.walk(fn)), 'delay_ms_for_try: an optional parameter is re-assigned')
+        fn = _Def().visit(copy.deepcopy(fn))
+        ast.fix_missing_locations(fn)
+        from engines import c2426facts
+        c2426facts.prune_constant_branches(fn)  # `if floor is not None:` at the default None
     rets = [r for r in pf.walk_shallow(fn) if isinstance(r, ast.Return)]
     ctx.need(rets and all(r.value is not None for r in rets), 'delay_ms_for_try: bare return')
     unclamped = [r for r in rets if not any(b.below(CAP) for b in cf.upper_bounds(fn, r.value))]
@@ -413,7 +447,9 @@ def _check_delay(ctx: Ctx, m: pf.Module):
             raise AnalysisError(f'delay_ms_for_try: `{pf.nsrc(r)}` is not derivably bounded by `{CAP}` for every (base_delay_ms, max_delay_ms) (upper bounds found: '
                                 f'{[b.show() for b in cf.upper_bounds(fn, r.value)][:4]}) and the interval evaluation at the default parameters shows no excess: not decided')
     ctx.extra_cov['delay_band_samples'] = samples
-    return hi_try, base, mx
+    if extras:
+        ctx.extra_cov['delay_optional_parameters'] = {k: (None if v is cf.NONE else v) for k, v in extras.items()}
+    return hi_try, base, mx, model
 
 
 # ------------------------------------------------------------------------------------------------
@@ -871,9 +907,9 @@ def run(ctx: Ctx) -> None:
     ctx.assume('aiohttp.ClientResponseError.__init__ stores the status / message / headers keyword arguments unchanged')
     m = pf.load(F)
     ctx.unit('files')
-    t, base, mx = _check_delay(ctx, m)
+    t, base, mx, model = _check_delay(ctx, m)
     ctx.unit('delay_try_counts', t)
-    de = cf.DelayEval(m, band_lo_ms=min(base, mx), band_hi_ms=mx, band1_hi_ms=min(2 * base, mx), base_ms=base)
+    de = cf.DelayEval(m, band_lo_ms=min(base, mx), band_hi_ms=mx, band1_hi_ms=min(2 * base, mx), base_ms=base, model=model)
     max_s = Fraction(mx, 1000)
     n = _check_loop(ctx, m, 'retry_transient_errors_with_debug_string', True, de, max_s)
     n += _check_loop(ctx, m, 'sync_retry_transient_errors', False, de, max_s)
